@@ -274,6 +274,12 @@ func runSession(prop, tier string, r *rng) {
 		for _, ft := range [][2]uint64{{10, 11}, {10, 10}, {10, 5}, {10, 0}, {1, 2}} {
 			e.sessionCase(prop, ft[0], ft[1], 4, []sessPeer{{have: 100}}, 400)
 		}
+		// the same Byzantine answers against a client that was built WITHOUT a connection gater
+		e.nilGater = true
+		for _, b := range []string{"forged:0", "shift:1", "garbage", "wrongchain", "panicky:0"} {
+			e.sessionCase(prop, 5, 14, 3, []sessPeer{{have: 100, behs: []string{b, b}}, {have: 100}}, 700)
+		}
+		e.nilGater = false
 		// one Byzantine behaviour on the first request of a single peer, then honest; and with an honest second peer
 		for _, b := range byzantine {
 			e.sessionCase(prop, 5, 14, 4, []sessPeer{{have: 100, behs: []string{b}}}, 700)
